@@ -1,4 +1,5 @@
 import RosuModel.Lemmas.GenStateExactMania2
+import RosuModel.Lemmas.GenStateExactRat
 import Mathlib.Data.Rat.Floor
 
 /-!
@@ -456,6 +457,28 @@ theorem mania_none_given_optimal (S acc : K) (h0 : 0 ≤ acc) (h1 : acc ≤ 1) (
   exact s5 s (hsm.trans (g4.trans s3)) hst
 
 end C13
+
+/-! ## The executable exact instance
+
+The driver answers `GSQ` request lines with the instance `ratOps` (core `Rat`); it *is* the
+instance `fieldOps 2` at `K = ℚ`, so every optimality theorem above speaks about what the driver
+computes, and the harness compares that with its brute-force optimum on every `GSQ` line. -/
+
+theorem driver_exact_instance : ratOps = fieldOps (2 : ℚ) := ratOps_eq_fieldOps
+
+/-- e.g. mania: the state the driver's exact instance generates is globally optimal -/
+theorem mania_none_given_optimal_driver (acc : ℚ) (h0 : 0 ≤ acc) (h1 : acc ≤ 1)
+    (c : ManiaCfg) (b : ManiaB ℚ) (hacc : b.acc = some acc) (h320 : b.n320 = none)
+    (h300 : b.n300 = none) (h200 : b.n200 = none) (h100 : b.n100 = none) (h50 : b.n50 = none)
+    (hsmall : c.nObjects + c.nHoldNotes ≤ u32Max) :
+    let o := @maniaGenRaw ℚ ratOps c b
+    o.accepted = true ∧ o.ok = true ∧
+      ∀ s : ManiaState, s.misses = o.state.misses → s.totalHits = o.state.totalHits →
+        |acc - @maniaAcc ℚ ratOps c.classic o.state| ≤ |acc - @maniaAcc ℚ ratOps c.classic s| := by
+  rw [driver_exact_instance]
+  obtain ⟨k1, k2, _, k4, k5⟩ := mania_none_given_optimal (2 : ℚ) acc h0 h1 (by norm_num) c b hacc
+    h320 h300 h200 h100 h50 hsmall
+  exact ⟨k1, k2, fun s hm ht => k5 s hm (ht.trans k4)⟩
 
 /-! ## Non-vacuity: the hypotheses are satisfiable (over `ℚ`, sentinel `2`) -/
 
